@@ -242,7 +242,7 @@ pub fn run(ctx: &RunCtx) -> Outcome {
         return o;
     }
     // (b) differential on look-behind patterns over multi-byte texts
-    let d = DiffRef { caps: true, allow_cond: true, cond_focus: false, omit_empty_no: false, only_pos0: false, f1_undisputed: false, free_cond_refs: false };
+    let d = DiffRef { caps: true, allow_cond: true, cond_focus: false, omit_empty_no: false, only_pos0: false, f1_undisputed: false, free_cond_refs: false, ref_style: 0 };
     let lb2: Vec<Node> = lb.into_iter().filter(|x| known_class(ctx, x).is_none()).collect();
     stage(ctx, &mut o, &d, "look-behind products vs reference (multi-byte texts)", &lb2, &mbt);
     o
@@ -250,7 +250,7 @@ pub fn run(ctx: &RunCtx) -> Outcome {
 
 pub fn replay(ctx: &RunCtx, case: &serde_json::Value) -> Result<Option<Fail>, String> {
     if case.get("extra").map_or(false, |e| e.get("omit_empty_no").is_some()) {
-        let d = DiffRef { caps: true, allow_cond: true, cond_focus: false, omit_empty_no: false, only_pos0: false, f1_undisputed: false, free_cond_refs: false };
+        let d = DiffRef { caps: true, allow_cond: true, cond_focus: false, omit_empty_no: false, only_pos0: false, f1_undisputed: false, free_cond_refs: false, ref_style: 0 };
         return replay_pat(ctx, &d, case);
     }
     // facts accumulate over texts: replay the whole text set up to the recorded one
